@@ -2,6 +2,8 @@ package harness
 
 import (
 	"fmt"
+	"net/http"
+	"net/url"
 	"reflect"
 	"strconv"
 	"strings"
@@ -87,6 +89,9 @@ func genC08(r *Rng, tier string) *World {
 		for i := 0; i < 1+r.Intn(3); i++ {
 			op := genExecOp(r, w, cfgs, 0.3)
 			op.Collect = Pick(r, []string{"", "", "CollectMap", "Collect", "SanitizeMapAndCollect", "SanitizeListAndCollect"})
+			if r.P(0.25) {
+				withFront(r, w, &op, false)
+			}
 			ops = append(ops, op)
 		}
 		w.Tasks = append(w.Tasks, ops)
@@ -274,6 +279,20 @@ func genC19(r *Rng, tier string) *World {
 			}
 			op.Input = v
 		}
+		if op.Kind == "parse" && op.Input.K == "m" && (root.Kind == "struct" || (root.Kind == "ptr" && root.Elem.Kind == "struct")) && r.P(0.2) {
+			// the input is an *http.Request (form body or query string); a repeated call gets the same request object
+			in := blankListEntries(r, op.Input)
+			op.Input = in
+			op.Front = "zhttp"
+			if r.P(0.6) {
+				op.IO = &IOSpec{Method: "POST", CT: "application/x-www-form-urlencoded", BodyKind: "form", Chunk: Pick(r, []int{0, 3})}
+				if r.P(0.3) {
+					op.IO.QueryIn = &in
+				}
+			} else {
+				op.IO = &IOSpec{Method: "GET", BodyKind: "none", QueryIn: &in}
+			}
+		}
 		op.Rev = r.P(0.3)
 		op.Collect = Pick(r, []string{"", "", "CollectMap", "SanitizeMapAndCollect"})
 		if r.P(0.3) {
@@ -349,6 +368,39 @@ func typedLists(n *Node, v Val) Val {
 		return Val{K: "tl", S: n.Elem.Kind, L: v.L}
 	}
 	return v
+}
+
+// blankListEntries blanks some non-final entries of string lists with two or more entries (a repeated
+// parameter sent empty: `tags=a&tags=&tags=b`).
+func blankListEntries(r *Rng, v Val) Val {
+	if v.K != "m" {
+		return v
+	}
+	out := VM()
+	for _, kv := range v.M {
+		if (kv.V.K == "l" || kv.V.K == "tl") && len(kv.V.L) >= 2 && r.P(0.4) {
+			l := VL(kv.V.L...)
+			l.L = append([]Val(nil), kv.V.L...)
+			i := r.Intn(len(l.L) - 1)
+			if l.L[i].K == "s" || l.L[i].K == "nil" {
+				l.L[i] = VS(Pick(r, []string{"", " "}))
+			}
+			kv.V = l
+		}
+		out.M = append(out.M, kv)
+	}
+	return out
+}
+
+func canonValues(v url.Values) string {
+	if v == nil {
+		return "nil"
+	}
+	var sb strings.Builder
+	for _, k := range sortedKeys(v) {
+		sb.WriteString(fmt.Sprintf("%q=%q;", k, v[k]))
+	}
+	return sb.String()
 }
 
 func ownedSnapshot(e *Engine) []string {
@@ -500,6 +552,7 @@ func runC19(x *X) *Violation {
 		phase string
 	}
 	var seen []seenRes
+	reqs := map[string]*http.Request{}
 	mutated := false
 	for i := range w.Tasks[0] {
 		op := &w.Tasks[0][i]
@@ -511,11 +564,28 @@ func runC19(x *X) *Violation {
 		if op.Kind == "parse" {
 			inputGo = RenameKeys(root, op.Input, "").ToGo()
 		}
+		key := op.Kind + "|" + op.Front + "|" + op.Input.String() + "|" + fmt.Sprint(op.Opts)
+		if op.IO != nil {
+			key += "|" + op.IO.Method + "|" + op.IO.CT + "|" + fmt.Sprint(op.IO.QueryIn != nil, op.IO.Chunk)
+		}
+		var req, twin *http.Request
+		if op.Kind == "parse" && op.Front == "zhttp" {
+			if req = reqs[key]; req == nil {
+				req = x.buildRequest(op, x.Built[0])
+				reqs[key] = req
+			}
+			// what net/http alone makes of an identical request
+			twin = x.buildRequest(op, x.Built[0])
+			twin.ParseForm()
+			inputGo = req
+		}
 		before := Canon(inputGo)
+		if req != nil {
+			before = req.URL.RawQuery
+		}
 		o := *op
 		o.Arg = "given"
 		x.given = inputGo
-		key := op.Kind + "|" + op.Input.String() + "|" + fmt.Sprint(op.Opts)
 		for _, s := range seen {
 			if s.key == key {
 				x.forceVisitsFrom(s.phase, "o"+strconv.Itoa(i)+"/")
@@ -528,7 +598,16 @@ func runC19(x *X) *Violation {
 		if res.Panic != "" {
 			return &Violation{Class: "C19/panic mode=" + op.Kind, Detail: res.Panic}
 		}
-		if after := Canon(inputGo); after != before {
+		if req != nil {
+			if req.URL.RawQuery != before {
+				return &Violation{Class: "C19/input-modified what=request-url", Detail: fmt.Sprintf("query string was %q, is %q after the call", before, req.URL.RawQuery)}
+			}
+			if req.Form != nil && (canonValues(req.Form) != canonValues(twin.Form) || canonValues(req.PostForm) != canonValues(twin.PostForm)) {
+				return &Violation{Class: "C19/input-modified what=request-form", Detail: fmt.Sprintf("after the call the request holds Form=%s PostForm=%s; net/http alone gives Form=%s PostForm=%s",
+					canonValues(req.Form), canonValues(req.PostForm), canonValues(twin.Form), canonValues(twin.PostForm))}
+			}
+			x.Probes["request_checked"]++
+		} else if after := Canon(inputGo); after != before {
 			return &Violation{Class: "C19/input-modified mode=" + op.Kind, Detail: fmt.Sprintf("input was %s, is %s after the call", before, after)}
 		}
 		if v := checkSchema(fmt.Sprintf("after call %d (%s)", i, op.Kind)); v != nil {
@@ -612,6 +691,10 @@ func (x *X) execLean(t int, op *Op) *Result {
 	var data any
 	if op.Kind == "validate" {
 		populate(dest.Elem(), op.Input)
+	} else if op.Front != "" && op.Front != "map" {
+		// a front end: the reader keeps no shared counters in the lean layer
+		ox := &X{Faults: map[string]int64{}}
+		data, _ = ox.makeInput(op, b)
 	} else {
 		data = op.Input.ToGo()
 	}
@@ -667,6 +750,7 @@ func runC08Race(x *X) *Violation {
 	}
 	x.foldRun()
 	x.BuildSchemas() // schemas nobody has used yet: lazily initialised state races on first use
+	x.buildSharedOpts()
 	r := simrt.NewRun(nil)
 	r.Lean = true
 	x.R = r
